@@ -93,6 +93,11 @@ struct StackFrame {
     id: usize,
     return_address: usize,
     return_place: Option<Var>,
+    /// The variables of the caller at the moment of the call, which are
+    /// restored when this frame returns. Variables are keyed by scope, so
+    /// without this a recursive call would overwrite the variables of the
+    /// activation that called it.
+    caller_vars: HashMap<Var, IrValue>,
     allocations: Vec<Allocation>,
 }
 
@@ -119,6 +124,7 @@ impl Default for Memory {
                 id: 0,
                 return_address: 0,
                 return_place: None,
+                caller_vars: HashMap::new(),
                 allocations: Vec::new(),
             }],
         }
@@ -172,6 +178,7 @@ impl Memory {
         &mut self,
         return_address: usize,
         return_place: Option<Var>,
+        caller_vars: HashMap<Var, IrValue>,
     ) {
         let id = self.id_counter;
         self.id_counter += 1;
@@ -179,6 +186,7 @@ impl Memory {
             id,
             return_address,
             return_place,
+            caller_vars,
             allocations: Vec::new(),
         });
     }
@@ -428,7 +436,11 @@ pub fn eval(
             } => {
                 let f = p.iter().find(|f| f.name == *func).unwrap();
 
-                mem.push_frame(program_counter, to.clone().map(|to| to.0));
+                mem.push_frame(
+                    program_counter,
+                    to.clone().map(|to| to.0),
+                    vars.clone(),
+                );
 
                 for (var, val_or_slot) in &f.variables {
                     if let ValueOrSlot::StackSlot(layout) = val_or_slot {
@@ -494,8 +506,10 @@ pub fn eval(
                     allocations: _,
                     return_address,
                     return_place,
+                    caller_vars,
                 }) = mem.pop_frame()
                 {
+                    vars = caller_vars;
                     if let Some(val) = val {
                         vars.insert(return_place.unwrap(), val.clone());
                     }
